@@ -93,8 +93,16 @@ def handler : Driver.Handler := fun c i => do
   let kNames := expNames.isEmpty || (expNames.length == result.length &&
     (List.zip expNames (result.map (·.1))).all (fun (e, n) => match e with | some s => s == n | none => true))
   let nb := (i.getObjValAs? Nat "nbatches").toOption.getD 0
-  -- no open finding of this property: every O-failure is a new VIOLATION
-  let attr : Option String := none
+  -- C30-F4: every disagreeing column is REPORTED as Decimal128(38, 10) and RETURNED as some other Decimal128 (names and the
+  -- plan/result agreement are intact); any other O-failure is a new VIOLATION
+  let decimalOnly (acts : List String) : Bool :=
+    acts.length == rtypes.length && (List.zip rtypes acts).all (fun (r, a) => r == a || (r == "Decimal128(38, 10)" && a.startsWith "Decimal128("))
+  let attr : Option String :=
+    match o with
+    | some _ =>
+      if (badBatchTypes || badArrays) && !badBatchNames && planF == some result
+         && batches.all (fun b => decimalOnly (b.map (·.2))) && arrays.all decimalOnly then some "C30-F4" else none
+    | none => none
   let tags := ["status:ok", if model.isSome then "model:typed" else "model:none", if nb == 0 then "batches:0" else "batches:some"]
               ++ (if !kTypes then ["k:types"] else []) ++ (if !kNames then ["k:names"] else []) ++ tags0
   pure { model := modelJson, k := kTypes && kNames, oracle := o, nt := model.isSome || raw, tags := tags, attr := attr }
